@@ -69,6 +69,13 @@ Theorem C17_pairs_progress : forall (g : gcfg) (l : list (nat * act)) (s : gst) 
   exists a, gstep g s (i, a) <> None.
 Proof. exact StreamN.pairs_progress. Qed.
 
+(* a run that cannot be extended has finished every pair and removed every pipe *)
+Theorem C17_pairs_maximal : forall (g : gcfg) (l : list (nat * act)) (s : gst),
+  total_demand g <= gslots g -> Forall (fun c => 1 <= pipecap c) (cfgs g) ->
+  grun g (ginit g) l = Some s -> (forall ia, gstep g s ia = None) ->
+  forall i p, nth_error (pairs s) i = Some p -> pp p = PDone /\ cp p = CDone /\ fifo p = false.
+Proof. exact StreamN.pairs_maximal_run_completes. Qed.
+
 Theorem C17_pairs_terminate : forall (g : gcfg) (s : gst) (ia : nat * act) (s' : gst),
   gstep g s ia = Some s' -> gmeasure (cfgs g) (pairs s') < gmeasure (cfgs g) (pairs s).
 Proof. exact StreamN.pairs_terminate. Qed.
@@ -125,6 +132,7 @@ Print Assumptions C17_rerun_drained.
 Print Assumptions C17_pairs_bytes.
 Print Assumptions C17_pairs_rerun_untouched.
 Print Assumptions C17_pairs_progress.
+Print Assumptions C17_pairs_maximal.
 Print Assumptions C17_pairs_terminate.
 Print Assumptions C17_pairs_example.
 Print Assumptions C17_pairs_too_few_slots_refuted.
